@@ -39,6 +39,9 @@ fn install_hook() {
 }
 
 fn panic_answer() -> String {
+    if std::env::var("HX_GQL_DEBUG").is_ok() {
+        eprintln!("panic: {}", LAST_PANIC.lock().unwrap());
+    }
     if debug_only_span_assert() {
         "reject".into()
     } else {
